@@ -6,7 +6,7 @@
 EXTENDS Integers, Sequences, FiniteSets, TLC, TLCExt, Json
 Tr == ndJsonDeserialize("trace.ndjson")
 F == INSTANCE ZnFront WITH MaxLen <- 0, EmitOneIn <- 1, Explore <- FALSE, src <- <<>>, phase <- "x", outcome <- [k |-> "none"]
-G == INSTANCE ZnGrammar WITH MaxDev <- 0, Globals <- "canon", Mutate <- FALSE, prog <- <<>>, toks <- <<>>, i <- 0, out <- <<>>, dev <- 0, unit <- "", eol <- "", depthB <- 0, hdr <- FALSE
+G == INSTANCE ZnGrammar WITH MaxDev <- 0, Globals <- "canon", Mutate <- FALSE, MinBrace <- FALSE, prog <- <<>>, toks <- <<>>, i <- 0, out <- <<>>, dev <- 0, unit <- "", eol <- "", depthB <- 0, hdr <- FALSE
 VARIABLE l
 Init == l = 1
 RecordOK(e) ==
